@@ -23,8 +23,9 @@ from pyvc import conc, smt, spec as S, symexec  # noqa: E402
 
 class Plan:
     def __init__(self, pid, level, functions=(), lemmas=(), bounded=(), explanation="", trusted=(), assumptions=(),
-                 extra=()):
+                 extra=(), consts=None):
         self.pid, self.level = pid, level
+        self.consts = consts
         self.functions = list(functions)
         self.lemmas = list(lemmas)
         self.bounded = list(bounded)       # callables (tier, seed) -> dict
@@ -123,6 +124,53 @@ def concrete_search(qn, c: S.Contract, pid, rng, budget, want=None, collect_path
     return n, None, None, mism
 
 
+def _child(h, tier, seed, conn):
+    try:
+        conn.send(("ok", h(tier, seed)))
+    except BaseException:
+        conn.send(("err", traceback.format_exc(limit=8)))
+    conn.close()
+
+
+def run_isolated(harnesses, tier, seed, faults, timeout=3000):
+    """Every bounded harness runs the *real* (compiled) code; it gets its own process so that a crash of
+    that code (memory corruption after an out-of-range access) is reported instead of killing the checker."""
+    import multiprocessing as mp
+    ctx = mp.get_context("fork")
+    procs = []
+    for h in harnesses:
+        a, b = ctx.Pipe(duplex=False)
+        p = ctx.Process(target=_child, args=(h, tier, seed, b))
+        p.start()
+        b.close()
+        procs.append((h, p, a))
+    out = []
+    for h, p, a in procs:
+        name = getattr(h, "__module__", "") + "." + getattr(h, "__name__", str(h))
+        msg = None
+        try:
+            if a.poll(timeout):
+                msg = a.recv()
+        except (EOFError, OSError):
+            msg = None
+        p.join(5)
+        if p.is_alive():
+            p.kill()
+        if msg is None:
+            rc = p.exitcode
+            if rc is not None and rc < 0:
+                out.append({"name": name, "evaluations": 0, "distinct_nontrivial": 0, "rule": "", "samples": [],
+                            "violations": [("crash", None, f"the real code crashed the harness process with signal {-rc} "
+                                            "(memory corruption by an unchecked array access?)")]})
+            else:
+                faults.append(f"bounded harness {name}: no result (exit {rc})")
+        elif msg[0] == "err":
+            faults.append(f"bounded harness {name}: {msg[1]}")
+        else:
+            out.append(msg[1])
+    return out
+
+
 def sha(s):
     return hashlib.sha256(s.encode()).hexdigest()[:16]
 
@@ -161,6 +209,13 @@ def run_property(plan: Plan, tier: str, seed: int, contracts_mod_names, replay=N
         for o in obls:
             kinds[o.kind] = kinds.get(o.kind, 0) + 1
         fn_info.append({"function": qn, "sha256": eng.fs.sha256, "obligations": len(obls), "by_kind": kinds})
+    if plan.lemmas:
+        try:
+            leng, lobls = symexec.prove_lemmas(plan.lemmas, pid, plan.consts)
+            all_obls.extend(lobls)
+            fn_info.append({"function": "lemmas: " + ", ".join(plan.lemmas), "obligations": len(lobls)})
+        except Exception:
+            faults.append(f"lemmas: {traceback.format_exc(limit=4)}")
     # custom provers (lemmas, polynomial normal forms, ...) return Obl-like objects already decided
     extra_results = []
     for ex in plan.extra:
@@ -235,12 +290,7 @@ def run_property(plan: Plan, tier: str, seed: int, contracts_mod_names, replay=N
             violations.append((o.name, None, "solver: sat\n" + (o.model or ""), "no-failing-input-found"))
     # --- bounded stand-ins
     bounded_reports = []
-    for h in plan.bounded:
-        try:
-            rep = h(tier, seed)
-        except Exception:
-            faults.append(f"bounded harness {getattr(h, '__name__', h)}: {traceback.format_exc(limit=6)}")
-            continue
+    for rep in run_isolated(plan.bounded, tier, seed, faults):
         bounded_reports.append(rep)
         for (label, inp, detail) in rep.get("violations", []):
             violations.append((f"bounded:{rep['name']}/{label}", inp, detail, None))
